@@ -71,6 +71,22 @@ def b2(ctx):
                      "memory_offset = old cursor (%s), memory_offset + memory_size = new cursor (%s): %s / %s" % (short(mo, 50), short(canon(new), 70), ok_old, ok_new), ctx.loc(r))
 
 
+HANDLES = (("bytes::BytesMut<A>", 0), ("bytes::BytesRefMut<'_, A>", 0), ("object::Owned<T, A>", 0), ("object::RefMut<'_, T, A>", 0))
+ACCESSORS = {"offset": "ptr_offset", "capacity": "ptr_size", "buffer_offset": "memory_offset", "buffer_capacity": "memory_size"}
+
+
+@rule("C01-A1", "C01", 16, "the ranges the properties speak of are the Meta's: on all four handle types offset() / capacity() are Meta.ptr_offset / ptr_size (the accessible "
+      "range) and buffer_offset() / buffer_capacity() are Meta.memory_offset / memory_size (the extent the allocator handed out, which dealloc(buffer_offset, "
+      "buffer_capacity) gives back)", also=("C03", "C13", ("C02", "!unsync"), "C10"))
+def a1(ctx):
+    for h, _ in HANDLES:
+        for acc, fld in sorted(ACCESSORS.items()):
+            b = ctx.facts.one("^<%s as Buffer>::%s$" % (re.escape(h), acc))
+            ev, res = ctx.eval(b)
+            want = field(SELF, "allocated", fld)
+            yield Ob(key_of("C01-A1", b.path, "accessor"), canon(res.ret, {"allocated"}) == want, "%s() returns %s: %s" % (acc, show(want), short(res.ret, 60)), b.loc())
+
+
 @rule("C01-R1", "C01", 2, "release on top: dealloc lowers the cursor to `offset` only when the cursor equals offset + size (so exactly the released extent returns to fresh space)")
 def r1(ctx):
     OFF, SIZE = ("param", 1, "offset"), ("param", 2, "size")
@@ -93,7 +109,7 @@ def r1(ctx):
 
 
 @rule("C01-R3", "C01", 2, "try_new_segment(offset, size): the segment lies inside the released extent - offset <= ptr_offset = alignUp(8, offset), data_offset = ptr_offset + 8, "
-      "data_offset + data_size = offset + size, data_size >= min_segment_size (C20: a release too small to become a segment is never linked)", also=(("C02", "sync"), "C10", "C20"))
+      "data_offset + data_size = offset + size, data_size >= min_segment_size (C20: a release too small to become a segment is never linked)", also=(("C02", "sync"), "C04", "C10", "C20"))
 def r3(ctx):
     OFF, SIZE = ("param", 1, "offset"), ("param", 2, "size")
     for fl in FLAVOURS:
